@@ -26,7 +26,7 @@ XT_CODE = {'byte': 1, 'char': 2, 'short': 3, 'int': 4, 'float': 5, 'double': 6, 
 XT_NAME = {v: k for k, v in XT_CODE.items()}
 XT_SIZE = {1: 1, 2: 1, 3: 2, 4: 4, 5: 4, 6: 8, 7: 1, 8: 2, 9: 4, 10: 8, 11: 8}
 XT_PACK = {1: 'b', 2: 'B', 3: 'h', 4: 'i', 5: 'f', 6: 'd', 7: 'B', 8: 'H', 9: 'I', 10: 'q', 11: 'Q'}
-LEAN_FILES = ['PnVerif/Model/Tools.lean', 'PnVerif/Lemmas/ToolsValidate.lean', 'PnVerif/Lemmas/ToolsSound.lean', 'PnVerif/Lemmas/ToolsDiff.lean',
+LEAN_FILES = ['PnVerif/Model/Tools.lean', 'PnVerif/Lemmas/ToolsValidate.lean', 'PnVerif/Lemmas/ToolsSound.lean', 'PnVerif/Lemmas/ToolsRepaired.lean', 'PnVerif/Lemmas/ToolsDiff.lean',
               'PnVerif/Props/C20.lean', 'Driver/C20.lean']
 
 
@@ -728,7 +728,7 @@ VMSG = [
     ('ebaddim', r'dimension ID \[|is larger than the number of dimensions defined'),
     ('eunlimpos', r'NC_UNLIMITED in the wrong index'),
     ('evarsize', r'large fixed-size variable|large record variable|variable size greater than max'),
-    ('enotnc', r'Invalid NC component tag|Unknow file signature|format is unknown|begin of |file header size|begin offset|Record variable section begin|Input file is in HDF'),
+    ('enotnc', r'Invalid NC component tag|Unknow file signature|format is unknown|begin of |file header size|begin offset|Record variable section begin|Input file is in HDF|holds a negative value|number of records is neither'),
     ('esmall', r'invalid file'),
 ]
 
@@ -790,7 +790,10 @@ class Lean:
         self.keys.append(key)
         self.lines.append(line)
 
-    def run(self):
+    def run(self, cfg_line=None):
+        if cfg_line:
+            self.keys.insert(0, ('CFG',))
+            self.lines.insert(0, cfg_line)
         drv = os.path.join(LEAN, '.lake/build/bin/c20drv')
         import resource
 
@@ -1108,6 +1111,7 @@ def run_check(tier, seed):
         'typed comparison of ncmpidiff (values converted to memory types) is modelled as comparison of the external bytes: exact except for NaN (never equal to itself) and -0.0 = +0.0',
         'malloc failure of the utilities for huge positive sizes is not modelled',
         'vsize is treated as redundant (the format text says so): a wrong vsize is not a header violation',
+        'the utilities are modelled in both variants of every repairable finding (VCfg / DiffCfg flags: pinned source, and with the repairs of C20-F1..F6); the run determines from the witness replays which variant the tree follows, ties to that one, and both variants have their theorems proved',
     ]
     V.cov['trusted_base'] = TRUSTED_BASE_COMMON + ['checks/c20.py: Python classic-format codec and CDL reader (independent oracle for dump/offsets/round trip)',
                                                    'harness/apirun.c (files are written by the real library through the public API)']
@@ -1509,9 +1513,19 @@ def _run(V, rng, tier, seed, tree, wd):
         lean.ask(('B', i), 'V ' + hexof(vb))
 
     log('[S4] %d byte-level variants through ncvalidator (%.1fs)' % (len(variants), V.t.s()))
+    # ---- which code variants does the tree follow?  (witness replays; the pinned source answers 0 everywhere)
+    def wit(cls):
+        i = [k for k, v in enumerate(variants) if v[0] == -1 and v[1] == cls][0]
+        return int(vres[i][0] != 0)
+    variant = dict(strictLen=wit('truncated'), strictSign=wit('sign'), strictTag=wit('foreign-tag-empty'), dimid64=wit('dimid-trunc64'),
+                   cmpNumrecs=int(pair_res[('w', 'w_rec')]['cdf'][1] != 0), byteCmp=int(pair_res[('w', 'w_byte')]['mpi1'][1] != 0))
+    V.cov['code_variants'] = variant
+    log('[S4] code variants found by the witness replays (1 = repaired): %s' % variant)
+    cfg_line = 'CFG %d %d %d %d %d %d' % (variant['strictLen'], variant['strictSign'], variant['strictTag'], variant['dimid64'],
+                                          variant['cmpNumrecs'], variant['byteCmp'])
     # ---- the Lean side
     try:
-        ans = lean.run()
+        ans = lean.run(cfg_line)
     except RuntimeError as ex:
         V.broken_tie('Lean driver failed', str(ex))
         return V.finish()
@@ -1584,7 +1598,7 @@ def _run(V, rng, tier, seed, tree, wd):
         distinct.add(('vlens', hb))
         replay = dict(pattern=tag, file_hex=hb.hex(), validator_exit=rc, validator_output=txt[-400:], model=t[1],
                       ncmpi_open=(so[3] if so else None), note='pattern: L/E/S = byte variable above / at / below the size limit of the format, lower case = record variable')
-        if lib_ok and rc != 0:
+        if lib_ok and rc != 0 and t[2] == '2':      # (ncmpi_open also takes headers the specification forbids, e.g. a CDF-1 begin beyond 2^31)
             fail('validator-rejects-file-the-library-opens:vlens', 'ncvalidator rejects a header (variable sizes around the format limit, pattern %s) that ncmpi_open accepts' % tag, replay)
         if tag.endswith(':overflow'):
             count('vlens next to 2^63 (signed overflow in the C, oracle only)')
